@@ -142,6 +142,7 @@ impl ZTok {
 }
 impl Clone for ZTok {
     fn clone(&self) -> Self {
+        zclone_tick();
         ZTok::new()
     }
 }
@@ -173,12 +174,30 @@ impl ZT for ZTokA {
 }
 impl Clone for ZTokA {
     fn clone(&self) -> Self {
+        zclone_tick();
         <ZTokA as ZT>::new()
     }
 }
 impl Drop for ZTokA {
     fn drop(&mut self) {
         ZLIVE.with(|c| c.set(c.get() - 1));
+    }
+}
+thread_local! {
+    /// the k-th clone of a zero-sized token panics (0 = never)
+    static ZCLONE_PANIC_AT: std::cell::Cell<u32> = const { std::cell::Cell::new(0) };
+}
+fn zclone_tick() {
+    let fire = ZCLONE_PANIC_AT.with(|c| {
+        let k = c.get();
+        if k == 0 {
+            return false;
+        }
+        c.set(k - 1);
+        k == 1
+    });
+    if fire {
+        panic!("{}", env::FAULT_MSG);
     }
 }
 fn zlive() -> i64 {
@@ -331,6 +350,114 @@ fn zst_case_of<Z: ZT>(n: usize, mask: u32, mode: u8) -> Result<(), String> {
     crate::mapsut::end_of_run_checks(&Baseline { live_elems: 0, live_blocks: 0, live_bytes: 0, block_idx: 0, reg_idx: 0 })
 }
 
+/// Panics in user code while a table of zero-sized elements is cloned or rehashed in place: the elements the
+/// operation gives up must be dropped (the ledger of live tokens must equal what the tables hold).
+fn zst_faults_of<Z: ZT>() -> Result<u64, String> {
+    type T<Z> = hashbrown::HashTable<Z, CheckAlloc>;
+    const H0: u64 = 5 | (0x15 << 57);
+    let mut count = 0u64;
+    let chk = |t: &T<Z>, what: &str| -> Result<(), String> {
+        inv::check_structure_public(&t.verif_dump()).map_err(|m| format!("{what}: {m}"))?;
+        if t.iter().count() != t.len() {
+            return Err(format!("{what}: len() = {} but iter() yields {}", t.len(), t.iter().count()));
+        }
+        Ok(())
+    };
+    // 1. Clone panics at its k-th call
+    for n in [1usize, 2, 5, 17] {
+        for k in 1..=n as u32 {
+            env::reset();
+            ZLIVE.with(|c| c.set(0));
+            let mut t = T::<Z>::default();
+            for _ in 0..n {
+                t.insert_unique(H0, Z::new(), |_| H0);
+            }
+            let what = format!("HashTable<zero-sized, {}> with {n} entries, Clone panicking at call {k}", Z::NAME);
+            for use_clone_from in [false, true] {
+                let mut tgt = T::<Z>::default();
+                tgt.insert_unique(H0, Z::new(), |_| H0);
+                ZCLONE_PANIC_AT.with(|c| c.set(k));
+                let r = env::catch(|| {
+                    if use_clone_from {
+                        tgt.clone_from(&t);
+                    } else {
+                        tgt = t.clone();
+                    }
+                });
+                ZCLONE_PANIC_AT.with(|c| c.set(0));
+                if r.is_ok() {
+                    return Err(format!("{what}: the panic was swallowed"));
+                }
+                chk(&t, &what)?;
+                chk(&tgt, &what)?;
+                if zlive() != (t.len() + tgt.len()) as i64 {
+                    return Err(format!("{what} ({}): {} tokens are live but the source holds {} and the target {}", if use_clone_from { "clone_from" } else { "clone" }, zlive(), t.len(), tgt.len()));
+                }
+                drop(tgt);
+                count += 1;
+            }
+            drop(t);
+            if zlive() != 0 {
+                return Err(format!("{what}: {} tokens live after everything was dropped", zlive()));
+            }
+        }
+    }
+    // 2. the re-hashing closure panics at its k-th call during an in-place rehash
+    for removed in [15usize, 20, 27] {
+        for k in 1..=(28 - removed) as u32 {
+            env::reset();
+            ZLIVE.with(|c| c.set(0));
+            let mut t = T::<Z>::with_capacity_in(28, CheckAlloc);
+            for _ in 0..28 {
+                t.insert_unique(H0, Z::new(), |_| unreachable!());
+            }
+            for _ in 0..removed {
+                match t.find_entry(H0, |_| true) {
+                    Ok(o) => {
+                        o.remove();
+                    }
+                    Err(_) => return Err("MACHINERY: zero-sized entry not found".into()),
+                }
+            }
+            let buckets = t.verif_dump().bucket_mask + 1;
+            let what = format!("HashTable<zero-sized, {}>: 28 entries, {removed} removed, reserve(1) with the hasher panicking at call {k}", Z::NAME);
+            let calls = std::cell::Cell::new(0u32);
+            let r = env::catch(|| {
+                t.reserve(1, |_| {
+                    calls.set(calls.get() + 1);
+                    if calls.get() == k {
+                        panic!("{}", env::FAULT_MSG);
+                    }
+                    H0
+                })
+            });
+            if r.is_ok() {
+                // (no in-place rehash happened, or fewer hasher calls than k)
+                continue;
+            }
+            if t.verif_dump().bucket_mask + 1 != buckets {
+                return Err(format!("MACHINERY: {what}: the table was resized, not rehashed in place"));
+            }
+            chk(&t, &what)?;
+            if zlive() != t.len() as i64 {
+                return Err(format!("{what}: {} tokens are live but the table holds {}", zlive(), t.len()));
+            }
+            t.insert_unique(H0, Z::new(), |_| H0);
+            chk(&t, &what)?;
+            drop(t);
+            if zlive() != 0 {
+                return Err(format!("{what}: {} tokens live after the table was dropped", zlive()));
+            }
+            count += 1;
+        }
+    }
+    Ok(count)
+}
+
+fn zst_faults() -> Result<u64, String> {
+    Ok(zst_faults_of::<ZTok>()? + zst_faults_of::<ZTokA>()?)
+}
+
 impl Config for ZstTables {
     fn label(&self) -> String {
         "HashTable<zero-sized>-many-entries".into()
@@ -357,6 +484,13 @@ impl Config for ZstTables {
                 }
             }
         }
+        if rep.violations.is_empty() {
+            crate::crumbs::set_replay(&json!({"zst_faults": true}).to_string());
+            match env::catch(zst_faults) {
+                Ok(Ok(k)) => rep.executions += k,
+                Ok(Err(e)) | Err(e) => rep.violations.push(Viol { config: self.label(), message: e, replay: json!({"zst_faults": true}) }),
+            }
+        }
         rep.states = maxn as u64 + 1;
         rep.detail = json!({"entries_up_to": maxn, "cases": rep.executions, "distinct_nontrivial": rep.executions});
         rep.samples.push(json!({"zst": [5, 0b10110, 0]}));
@@ -364,6 +498,12 @@ impl Config for ZstTables {
         rep
     }
     fn replay(&self, rp: &serde_json::Value) -> Result<(), String> {
+        if rp.get("zst_faults").is_some() {
+            return match env::catch(zst_faults) {
+                Ok(r) => r.map(|_| ()),
+                Err(e) => Err(e),
+            };
+        }
         let a = rp["zst"].as_array().ok_or("MACHINERY: bad replay")?;
         let (n, m, mode) = (a[0].as_u64().unwrap_or(0) as usize, a[1].as_u64().unwrap_or(0) as u32, a[2].as_u64().unwrap_or(0) as u8);
         match env::catch(|| zst_case(n, m, mode)) {
